@@ -64,7 +64,21 @@ macro_rules! dim {
                 gen_n(rng, tier, N * N + N)
             }
             pub fn g_mm(rng: &mut Rng, tier: Tier) -> Case {
-                gen_n(rng, tier, 2 * N * N)
+                let mut c = gen_n(rng, tier, 2 * N * N);
+                // one case in three: one or both factors are what the crate's own constructors
+                // produce (identity, scale, translation, rotation, projection-shaped, ...)
+                if N >= 2 && rng.chance(1, 3) {
+                    let which = rng.below(3);
+                    if which != 1 {
+                        let (m, _) = gen::structured_matrix(rng, tier, N);
+                        c.r[..N * N].copy_from_slice(&m);
+                    }
+                    if which != 0 {
+                        let (m, _) = gen::structured_matrix(rng, tier, N);
+                        c.r[N * N..2 * N * N].copy_from_slice(&m);
+                    }
+                }
+                c
             }
             /// products whose factors are within 2^-k of the identity, or tiny / huge
             /// (a field has no "negligible" elements: I + 2^-60 E is not I)
@@ -406,6 +420,22 @@ fn xform<S: Sc>(case: &Case, ck: &mut Ck<S>) {
         let (x4, y4) = (mk_m4(h1), mk_m4(h2));
         ck.eqm("M4 concat = x*y", m4(Transform::<Point3<S>>::concat(&x4, &y4)), mmul(h1, h2));
         ck.eqm("M4 concat(y,x) = y*x", m4(Transform::<Point3<S>>::concat(&y4, &x4)), mmul(h2, h1));
+        // the in-place form and the iterator product of the same two factors
+        let mut cs = x4;
+        Transform::<Point3<S>>::concat_self(&mut cs, &y4);
+        ck.eqm("M4 concat_self(x, y) = x*y", m4(cs), mmul(h1, h2));
+        let mut cs = x;
+        Transform::<Point3<S>>::concat_self(&mut cs, &y);
+        ck.eqm("M3(3-D) concat_self(x, y) = x*y", m3(cs), mmul(g1, g2));
+        let mut cs = x;
+        Transform::<Point2<S>>::concat_self(&mut cs, &y);
+        ck.eqm("M3(2-D) concat_self(x, y) = x*y", m3(cs), mmul(g1, g2));
+        let pr: Matrix4<S> = [x4, y4].iter().product();
+        ck.eqm("Product over [&x, &y] = x*y", m4(pr), mmul(h1, h2));
+        let pr: Matrix4<S> = Vec::<Matrix4<S>>::new().iter().product();
+        ck.eqm("empty Product over references = identity", m4(pr), mident());
+        let pr: Matrix3<S> = Vec::<Matrix3<S>>::new().into_iter().product();
+        ck.eqm("empty Product over values = identity", m3(pr), mident());
     }
     let k = Matrix3::from_value(s);
     ck.eqv(
